@@ -64,6 +64,65 @@ def extra_grid():
     return ps
 
 
+def _fn_desc(p):
+    f = getattr(p, "predicate_fn", None) or getattr(p, "fn", None)
+    if f is None or not hasattr(f, "__code__"):
+        return None
+    return {"defaults": repr(f.__defaults__), "kwdefaults": repr(f.__kwdefaults__), "closure": repr([c.cell_contents for c in (f.__closure__ or ())]),
+            "globals_used": repr({k: f.__globals__.get(k) for k in f.__code__.co_names if k in f.__globals__ and k.isupper()})}
+
+
+def big_pairs():
+    """(p, q, values): pairs that differ in something that affects the result, with the values that tell them apart"""
+    from predicate.standard_predicates import eq_p, ge_p, le_p, ne_p, gt_p, lt_p, ge_le_p, ge_lt_p, gt_le_p, gt_lt_p
+    out = []
+    a, b, c, d, e, f = ge_p(10), le_p(20), eq_p(100), ne_p(7), gt_p(50), lt_p(-3)
+    ints = list(range(-8, 112))
+
+    def ch(op, ops):
+        t = ops[0]
+        for o in ops[1:]:
+            t = gen.mk(op, t, o)
+        return t
+    for op in ("xor", "and", "or"):
+        for l1, l2 in (([a, a, b, c, d], [a, b, b, c, d]), ([a, a, b, c, d, e], [a, b, c, d, e, e]), ([a, a, a, b, c], [a, b, b, b, c]),
+                       ([a, b, c, d, e, f], [f, e, d, c, b, a]), ([a, b, c, d, e], [a, b, c, d, f]), ([a, a, b, c, d, e, f], [a, b, c, d, e, f, f]),
+                       ([a, b, c, d, e, a], [a, b, c, d, e, b]), ([a] * 5 + [b], [a] + [b] * 5), ([a, b, c, d, a, b, c, d], [a, b, c, d, a, b, c, c])):
+            out.append((ch(op, l1), ch(op, l2), ints))
+            out.append((ch(op, l1), ch(op, l2[::-1]), ints))
+    near = [(1e10, 1e10 + 1), (0.1 + 0.2, 0.3), (1e16, 10 ** 16 + 1), (2 ** 53, 2 ** 53 + 1), (float(2 ** 53), 2 ** 53 + 1), (1e300, 1.0000000000000002e300),
+            (10 ** 30, 10 ** 30 + 1), (1.0, 1 + 2 ** -52), (123456789012.0, 123456789013.0), (-1e12, -1e12 - 1)]
+    for u, v in near:
+        xs = [u, v, (u + v) / 2 if isinstance(u, float) or isinstance(v, float) else (u + v) // 2, int(u), int(v), int(max(u, v)), int(min(u, v))]
+        lo = min(u, v) - abs(u) - 10
+        hi = max(u, v) + abs(u) + 10
+        for mk in (eq_p, ne_p, ge_p, gt_p, le_p, lt_p):
+            out.append((mk(u), mk(v), xs))
+        for mk in (ge_le_p, ge_lt_p, gt_le_p, gt_lt_p):
+            try:
+                out.append((mk(lo, u), mk(lo, v), xs))
+                out.append((mk(u, hi), mk(v, hi), xs))
+            except Exception:  # noqa: BLE001
+                pass
+    src = "lambda s, *, limit=LIM: len(s) > limit"
+    k3, k12 = eval(src.replace("LIM", "3")), eval(src.replace("LIM", "12"))
+    same_code = [eval("lambda s, *, limit=3: len(s) > limit"), ]
+    mkk = lambda n_: (lambda s, *, limit=n_: len(s) > limit)  # noqa: E731
+    mkd = lambda n_: (lambda s, limit=n_: len(s) > limit)  # noqa: E731
+    mkc = lambda n_: (lambda s: len(s) > n_)  # noqa: E731
+    g1, g2 = {"LIMIT": 3}, {"LIMIT": 12}
+    fg1, fg2 = eval("lambda s: len(s) > LIMIT", g1), eval("lambda s: len(s) > LIMIT", g2)
+    words = ["", "ab", "hello", "hello world!!", "x" * 40]
+    for f1, f2 in ((mkk(3), mkk(12)), (mkd(3), mkd(12)), (mkc(3), mkc(12)), (fg1, fg2), (k3, k12), (mkk(3), mkd(3)), (str.upper, str.lower), (len, len)):
+        out.append((fn_p(f1), fn_p(f2), words))
+        try:
+            out.append((tee_p(f1), tee_p(f2), words))
+            out.append((comp_p(f1, PP.EqPredicate(v=True)), comp_p(f2, PP.EqPredicate(v=True)), words))
+        except Exception:  # noqa: BLE001
+            pass
+    return out
+
+
 VALUES = gen.SCALAR_VALUES + [[], [1], [1, 2], set(), {1}, {1, 2}, {1: 1}, {2: 0}, "abc", "ba"]
 
 
@@ -116,6 +175,26 @@ def search(payload):
                         break
         if len(fails) >= 5:
             break
+    # beyond the small grid: long chains with repeated operands, bounds a few ulp / one unit apart at large magnitude, functions that
+    # differ only in what the code object does not show
+    for p, q, xs in big_pairs():
+        try:
+            e = (p == q)
+        except Exception:  # noqa: BLE001
+            continue
+        n += 1
+        try:
+            if e != (q == p):
+                fails.append({"p": repr(p)[:200], "q": repr(q)[:200], "kind": "not symmetric"})
+        except Exception:  # noqa: BLE001
+            pass
+        if e:
+            for x in xs:
+                if call(p, x)[0] == "ok" and call(q, x)[0] == "ok" and call(p, x) != call(q, x):
+                    fails.append({"p": repr(p)[:300], "q": repr(q)[:300], "p_structure": str(skey(p))[:600], "q_structure": str(skey(q))[:600], "x": repr(x),
+                                  "kind": "p == q but p(x) != q(x)", "p(x)": repr(call(p, x)), "q(x)": repr(call(q, x)),
+                                  "p_function": _fn_desc(p), "q_function": _fn_desc(q)})
+                    break
     trees = [gen.build(gen.random_shape(rng_of(payload), 6, 3), [lambda k=k: ps[k] for k in (0, 7, 20, 30, 45, 60)]) for _ in range(300)]
     # twins in sequence, in both orders, in this one process (anything remembered under repr() confuses them)
     seq = []
